@@ -184,7 +184,7 @@ def compare_outcomes(real, model):
     if rk != mk:
         return f"error kinds differ: real {json.dumps(real)[:200]} model {json.dumps(model)[:200]}"
     if rk in ("syntax", "elReparse"):
-        if model["parse"].get("kind") != real["kind"]:
+        if not str(real["kind"]).startswith("unknown:") and model["parse"].get("kind") != real["kind"]:
             return f"syntax error kinds differ: real {real['kind']} model {model['parse'].get('kind')}"
         return None
     for k in ("expected", "found", "i", "output"):
